@@ -520,45 +520,85 @@ def _sample_pairs(rng, case, ts, n):
     return pairs
 
 
+def _decode_header(v):
+    """[1] -> None (rejected); [0, N, d1..dN, rest...] -> (dims, rest)"""
+    if not v or v[0] != 0:
+        return None
+    n = v[1]
+    return list(v[2:2 + n]), v[2 + n:]
+
+
 def eval_model(ctx, jobs):
-    """jobs: dict key -> ('table', case) | ('status', case) | ('pairs', case, pairs).  Returns key -> parsed value."""
-    items = list(jobs.items())
-    # order by estimated cost so that files are balanced
+    """jobs: dict key -> ('table', case) | ('status', case) | ('pairs', case, pairs).
+    Returns key -> value: table -> None | (rdims, {(xi, yi): (r, c) | 'error'});
+    pairs -> None | (rdims, [code...]); status -> (expand_dims, expand_order) as parsed terms."""
+    import re
+    from common import NCPU
+
     def cost(j):
         if j[0] == "table":
-            return _prod(j[1]["dims"]) ** 2
-        return 50
-    files = []
-    chunk, ccost = [], 0
-    for key, j in sorted(items, key=lambda kv: -cost(kv[1])):
-        chunk.append((key, j))
-        ccost += cost(j)
-        if len(chunk) >= 120 or ccost > 250000:
-            files.append(chunk)
-            chunk, ccost = [], 0
-    if chunk:
-        files.append(chunk)
-    texts = []
-    for i, ch in enumerate(files):
-        body = [COQ_HEAD]
-        for key, j in ch:
-            a = _coq_args(j[1])
-            if j[0] == "table":
-                body.append(f"Eval vm_compute in (expand_table {a}).")
-            elif j[0] == "status":
-                body.append(f"Eval vm_compute in (expand_dims {a}, expand_order {a}).")
-            else:
-                pl = "[" + "; ".join(f"({_cnatlist(x)}, {_cnatlist(y)})" for x, y in j[2]) + "]"
-                body.append(f"Eval vm_compute in (expand_dims {a}, map (fun xy => expand_elem {a} (fst xy) (snd xy)) {pl}).")
-        texts.append((f"C08_{ctx.tier}_{i}", "\n".join(body) + "\n"))
+            return _prod(j[1]["dims"]) ** 2 + 500
+        if j[0] == "pairs":
+            return 20000
+        return 300
+    nb = max(4, min(NCPU, 16))
+    bins = {"z": [[] for _ in range(nb)], "t": [[] for _ in range(nb)]}
+    load = {"z": [0] * nb, "t": [0] * nb}
+    for key, j in sorted(jobs.items(), key=lambda kv: -cost(kv[1])):
+        kind = "t" if j[0] == "status" else "z"
+        i = min(range(nb), key=lambda b: (load[kind][b], b))
+        bins[kind][i].append((key, j))
+        load[kind][i] += cost(j)
+    texts, files = [], []
+    for kind in ("z", "t"):
+        for i, ch in enumerate(bins[kind]):
+            if not ch:
+                continue
+            body = [COQ_HEAD]
+            for key, j in ch:
+                a = _coq_args(j[1])
+                if j[0] == "table":
+                    body.append(f"Eval vm_compute in (expand_table_z {a}).")
+                elif j[0] == "status":
+                    body.append(f"Eval vm_compute in (expand_dims {a}, expand_order {a}).")
+                else:
+                    pl = "[" + "; ".join(f"({_cnatlist(x)}, {_cnatlist(y)})" for x, y in j[2]) + "]"
+                    body.append(f"Eval vm_compute in (expand_pairs_z {a} {pl}).")
+            texts.append((f"C08_{ctx.tier}_{kind}{i}", "\n".join(body) + "\n"))
+            files.append((kind, ch))
     outs = coq_eval_many(texts, timeout=900)
     res = {}
-    for (name, _), ch in zip(texts, files):
-        vals = parse_evals(outs[name])
+    for (name, _), (kind, ch) in zip(texts, files):
+        if kind == "t":
+            vals = parse_evals(outs[name])
+        else:
+            vals = [[int(t) for t in re.findall(r"-?\d+", chunk.rsplit(":", 1)[0])]
+                    for chunk in re.split(r"^\s*= ", outs[name], flags=re.M)[1:]]
         if len(vals) != len(ch):
             raise Broken("coq-eval:" + name, f"{len(vals)} values for {len(ch)} cases")
-        for (key, _), v in zip(ch, vals):
-            res[key] = v
+        for (key, j), v in zip(ch, vals):
+            if j[0] == "status":
+                res[key] = v
+                continue
+            h = _decode_header(v)
+            if h is None:
+                res[key] = None
+            elif j[0] == "pairs":
+                res[key] = h
+            else:
+                rdims, cells = h
+                D = _prod(rdims)
+                C = _prod(j[1]["ocol"])
+                M = _prod(j[1]["orow"]) * C + 1
+                mm = {}
+                for n in cells:
+                    if n < 0:
+                        pos = -n - 1
+                        mm[(pos // D, pos % D)] = "error"
+                    else:
+                        pos, code = divmod(n, M)
+                        mm[(pos // D, pos % D)] = ((code - 1) // C, (code - 1) % C)
+                res[key] = (rdims, mm)
     return res
 
 
@@ -651,35 +691,26 @@ def correspond(ctx):
             continue
 
         # a valid call
-        if status != "ok":
-            mok = isinstance(m, tuple) and (m[0] == "Ok" or (mode == "pairs" and isinstance(m[0], tuple) and m[0][0] == "Ok"))
-            if mok:
-                corr.disagree(inp, "rejected " + str(out), "Ok", "accept/reject differs")
+        if (status == "ok") != (m is not None):
+            corr.disagree(inp, status if status != "ok" else "accepted", "Ok" if m is not None else "Error",
+                          "accept/reject differs")
             corr.count(key, nontrivial=True, sample=inp)
             continue
-        if mode == "table" and not (isinstance(m, tuple) and m[0] == "Ok"):
-            corr.disagree(inp, "accepted", str(m)[:200], "accept/reject differs")
+        if status != "ok":
             corr.count(key, nontrivial=True, sample=inp)
             continue
         E = out.full()
         C = _prod(ocol)
         ts = valid_call(c)
         if mode == "table":
-            rdims, cells = m[1]
+            rdims, mm = m
             if out.dims != [list(rdims)] * 2:
                 corr.disagree(inp, out.dims, rdims, "result dims differ")
                 corr.count(key, nontrivial=True, sample=inp)
                 continue
-            mm = {}
-            badcell = None
-            for x, y, e in cells:
-                if not (isinstance(e, tuple) and e[0] == "Ok" and isinstance(e[1], tuple) and e[1][0] == "Some"):
-                    badcell = (x, y, e)
-                    break
-                r, cc = e[1][1]
-                mm[(_flat(x, rdims), _flat(y, rdims))] = (_flat(r, orow), _flat(cc, ocol))
-            if badcell:
-                corr.disagree(inp, "entry exists", str(badcell), "model cannot evaluate an entry of the result")
+            if "error" in mm.values():
+                bad = [k for k, v in mm.items() if v == "error"][:3]
+                corr.disagree(inp, "entry exists", str(bad), "model cannot evaluate an entry of the result")
                 corr.count(key, nontrivial=True, sample=inp)
                 continue
             im = {}
@@ -745,21 +776,18 @@ def correspond(ctx):
             corr.tally("table cases")
             corr.tally("table entries compared", E.shape[0] * E.shape[1])
         else:
-            mdims, elems = m
-            if not (isinstance(mdims, tuple) and mdims[0] == "Ok") or out.dims != [list(mdims[1])] * 2:
+            mdims, codes = m
+            if out.dims != [list(mdims)] * 2:
                 corr.disagree(inp, out.dims, str(mdims), "result dims differ")
+            elif len(codes) != len(pairs):
+                raise Broken("coq-eval:pairs", "wrong number of codes")
             else:
-                for (x, y), e in zip(pairs, elems):
+                for (x, y), code in zip(pairs, codes):
                     v = E[_flat(x, dims), _flat(y, dims)]
-                    if isinstance(e, tuple) and e[0] == "Ok" and (e[1] is None or e[1] == "None"):
-                        want = 0.0
-                    elif isinstance(e, tuple) and e[0] == "Ok":
-                        r, cc = e[1][1]
-                        want = coded[_flat(r, orow), _flat(cc, ocol)]
-                    else:
-                        want = None
+                    want = None if code < 0 else (0.0 if code == 0 else coded[(code - 1) // C, (code - 1) % C])
                     if want is None or v != want:
-                        corr.disagree(dict(inp, x=x, y=y), str(complex(v)), str(e), "sampled entry differs from the model")
+                        corr.disagree(dict(inp, x=x, y=y), str(complex(v)), "code %d" % code,
+                                      "sampled entry differs from the model")
                         break
                 R = random_matrix(rng, orow, ocol)
                 st, o3 = run_impl(c, R)
